@@ -25,7 +25,10 @@ META = {
                    "reachable response class with a symbolic answer byte; bitmap loops fork per bit",
     "bounds": ["all response classes reachable from Command._commands plus the base classes",
                "answer byte 0..255 symbolic", "outcomes: none / clean / framing error",
-               "non-frame constructor arguments: a concrete list of 9 objects"],
+               "non-frame constructor arguments: a concrete list of 9 objects",
+               "bitmap histories: another bitmap class decodes the same byte and this class the complemented "
+               "byte before the decode under test (quick: the next class in the list; thorough: every ordered "
+               "pair of bitmap classes)"],
     "stubs": ["isinstance/int shims", "EnumProxy around the enumerator of EnumResponse subclasses",
               "SymScaled text tokens for value * float in __str__"],
     "outside": ["derived convenience properties beyond 'does not raise on a clean frame'",
@@ -245,6 +248,30 @@ def _bitmap(ctx, cls, r, raw, v, outcome, tag):
     return "bitmap"
 
 
+def bitmap_classes():
+    return [c for c in response_classes() if _base(c) is C.BitmapResponse]
+
+
+def h_bitmap_history(ctx, idx, prev):
+    """The decoding of one answer must not depend on what was decoded before: another bitmap class
+    decodes the same byte, then this class decodes the complemented byte, then the byte itself
+    (catches state shared between classes or between instances, e.g. memoised decodings)."""
+    bm = bitmap_classes()
+    cls, other = bm[idx], bm[prev]
+    tag = "%s/after-%s" % (cls.__name__, other.__name__)
+    v = ctx.fresh("v", 0, 255)
+    for c, x in ((other, v), (cls, v ^ 0xFF)):
+        r0 = c(F.BackwardFrame(x))
+        st, s0 = call(lambda: r0.status)
+        if st == "exc":
+            ctx.fail("bitmap status raised %r" % (s0,), key=tag + "/earlier-raised")
+            return "raised"
+        call(str, r0)
+    raw = F.BackwardFrame(v)
+    r = cls(raw)
+    return _bitmap(ctx, cls, r, raw, v, "clean", tag)
+
+
 def h_ctor_types(ctx):
     bad = [F.Frame(8, 1), F.ForwardFrame(8, 1), F.ForwardFrame(16, 1), 5, "x", b"\x01", 1.0, [1], True]
     n = 0
@@ -266,4 +293,10 @@ def cases(tier):
         for outcome in ("none", "clean", "error"):
             cs.append(Case("%s-%s" % (cls.__name__, outcome), h_response,
                            {"idx": i, "outcome": outcome}, install=_install_enums))
+    bm = bitmap_classes()
+    for i, cls in enumerate(bm):
+        prevs = [(i + 1) % len(bm)] if tier == "quick" else [j for j in range(len(bm)) if j != i]
+        for j in prevs:
+            cs.append(Case("%s-after-%s" % (cls.__name__, bm[j].__name__), h_bitmap_history,
+                           {"idx": i, "prev": j}, install=_install_enums))
     return cs
